@@ -11,7 +11,7 @@
    renderings; derivations of the published grammar). *)
 From Coq Require Import ZArith NArith List Bool String.
 From Coq.Strings Require Import Byte.
-From Verif Require Import Lanes Common Values Scan Numbers Tokens Reader Configs ScanProofs FidelityProofs NumLiteral FlagProofs RoundTrip RoundTripWs.
+From Verif Require Import Lanes Common Values Scan Numbers Tokens Reader Configs ScanProofs FidelityProofs NumLiteral FlagProofs RoundTrip RoundTripWs RoundTripGap.
 Import ListNotations.
 Local Open Scope N_scope.
 
@@ -48,6 +48,13 @@ Theorem C03_document_every_trivia_rendering : forall c o m a, In c all_cfgs -> a
                 r_value r = Some n /\ denotes c (erase a) n /\ r_err r = EOk /\ r_eof r = false.
 Proof. exact read_document_ws. Qed.
 
+(* ... and with discarded forms (of the same grammar, nested at will) in every gap *)
+Theorem C03_document_with_discards : forall c o m a, In c all_cfgs -> gwf a ->
+  slice m 0 (List.length (gpr a)) = gpr a ->
+  exists r s n, run_doc c o m (N.of_nat (List.length (gpr a))) = Ret r s /\
+                r_value r = Some n /\ denotes c (gerase a) n /\ r_err r = EOk /\ r_eof r = false.
+Proof. exact read_document_gap. Qed.
+
 (* non-vacuity: [1 (:a -20) [] :kw 18446744073709551616] is a well-formed term of the fragment, and this is its text *)
 Example C03_fragment_example :
   let t := TVec [TInt false ["1"%byte]; TList [TKw ["a"%byte]; TInt true ["2"; "0"]%byte]; TVec []; TKw ["k"; "w"]%byte;
@@ -57,5 +64,6 @@ Proof. split; [cbn; repeat split; try discriminate; try reflexivity; left; discr
 
 Print Assumptions C03_document_fragment.
 Print Assumptions C03_document_every_trivia_rendering.
+Print Assumptions C03_document_with_discards.
 Print Assumptions C03_symbol_partial.
 Print Assumptions C03_keyword_partial.
